@@ -31,8 +31,8 @@ PROPS = {
                 "15% malformed stream with wrong-hash / double / foreign put-backs), tokens canonicalised by first appearance; (b) the real "
                 "Finish/EFLO builders called 6x each with a recording generator on a base parameter set and variants (tag permutation, every "
                 "significant field changed), hashes canonicalised by first appearance, observed tag order compared; (c) fail/retry flows through "
-                "Finish + the real generator; (d) 150 / 2500 fail/retry histories through the REAL OpenAPI wrappers CreateNetworkInterface, AssignPrivateIPAddress2, AssignIpv6Addresses2 and CreateElasticNetworkInterfaceV2 over the real SDK clients "
-                "whose HTTP transport is the harness (answers: success, HTTP 400 server error, EFLO HTTP 200 with a non-zero business code): the ClientToken read off the wire is compared with the model's flow, monitors: a retry after a failed call "
+                "Finish + the real generator; (d) 150 / 2500 fail/retry histories (each drawing from 2-4 request identities, so that most failures are followed by a retry) through the REAL OpenAPI wrappers CreateNetworkInterface, AssignPrivateIPAddress2, AssignIpv6Addresses2, CreateElasticNetworkInterfaceV2 and the v1 wrappers AssignPrivateIPAddress / AssignIpv6Addresses (ops tok.a*, tok.b*) over the real SDK clients "
+                "whose HTTP transport is the harness (answers: success, HTTP 400 server error, EFLO HTTP 200 with a non-zero business code, or Throttling on every attempt until the wrapper's back-off of three steps is exhausted): the ClientToken read off the wire is compared with the model's flow, monitors: a retry after a failed call "
                 "carries another token, the token on the wire is not the one the generator issued, one call sends two tokens. Every builder case also checks, model-independently, that requests differing in what is sent never hash alike and equal requests hash alike. non-trivial = history with at least one token reuse / builder case with >= 2 tags / flow with a failure; "
                 "distinct = distinct op sequence.",
         "technique": "Lean 4 invariants by induction over all issue/roll-back histories (LRU residency, token uniqueness, provenance), sort-based order-independence lemma; differential correspondence + Go monitors",
@@ -41,7 +41,7 @@ PROPS = {
                       "hash input is independent of tag iteration order. Model tied to token.go/options.go by differential runs on the real generator and builders.",
         "level_note": "Trusted: Lean kernel; Model/Token.lean hand-written (k8s.io/utils/lru modelled as an MRU-first list); uuid.NewString freshness and MD5 collision-freeness are assumptions; "
                       "the retry theorem is conditional on fewer than cap other operations in between (bounded LRU, default 500; witness c16_eviction_witness) - the listed property text has no such bound, "
-                      "see known finding; of the OpenAPI wrappers the four that create interfaces / assign addresses on the controllers' paths are exercised through the SDK (scripted transport, one attempt per call: the wrappers' internal back-off loop re-sends the same request object); the v1 variants AssignPrivateIPAddress / AssignIpv6Addresses and AssignLeniPrivateIPAddress2 are not.",
+                      "see known finding; of the OpenAPI wrappers the six that create interfaces / assign addresses for ECS and the EFLO create are exercised through the SDK (scripted transport; one attempt per call, or three throttled attempts re-sending the same request object); AssignLeniPrivateIPAddress2 is not.",
         "assumptions": ["uuid.NewString never repeats", "MD5 of the JSON-serialised request is collision-free on distinct requests",
                         "call sites invoke the roll-back closure at most once, with the token they were given"],
         "trusted_base": ["Model/Token.lean (hand-written)", "alibaba-cloud-sdk-go request signing / response decoding beneath the scripted transport"],
@@ -54,7 +54,7 @@ PROPS = {
                      "C17.c17_exhausted_not_chosen", "C17.block_marks", "C17.getOne_choice"],
         "rule": "random histories on the real SwitchPool (hooked fake clock, fake VPC client): 2-7 vSwitches over 3 zones with free counts incl. 0, "
                 "GetOne with all four policy values (ordered/most/random/empty), zone fallback on/off, candidate lists of 0-6 ids incl. duplicates and unknown ids, "
-                "Block, clock steps around the TTL boundary (ttl-1, ttl, ttl+1), cloud changes/removals, Add. Model predicts choice and caller slice for "
+                "Block (preceded by a look-up that is single or, in a quarter of the cases, 2-4 concurrent look-ups sharing one describe call: op vsw.getpar, monitor: the entry is cached afterwards), clock steps around the TTL boundary (ttl-1, ttl, ttl+1), cloud changes/removals, Add. Model predicts choice and caller slice for "
                 "ordered/most/default, validates the observed choice for random; Go monitors on every selection: member of the list, zone, free addresses, not blocked, caller slice untouched, and for ordered / default no earlier eligible candidate. non-trivial = history with at least one selection and one Block; distinct = distinct op sequence.",
         "technique": "Lean 4 refinement of GetOne to a pure selection over resolved candidates (lookup stability under cache fills) + characterisation lemmas; differential correspondence + Go monitors",
         "level_text": "Theorems for all candidate lists, zones, free counts, policies and all cache/cloud states: choice is a member with free addresses, in the requested zone unless fallback and no in-zone candidate is eligible, "
@@ -114,7 +114,7 @@ PROPS = {
         "rule": "(1) base/overlay documents: eni_conf-shaped documents (with null members in overlays), random trees of depth <= 4 over 14 shared keys, empty overlays, null-free overlays; "
                 "merged with evanphx MergePatch and compared (canonical, keys sorted) with the Lean model; the real MergeConfigAndUnmarshal is checked at Config level against an independent RFC 7396 reference, "
                 "for the empty overlay and for idempotence. (2) plugin lists of 0-4 plugins (terway with 11 virtual-type spellings x 6 provider values, cilium-cni, other, malformed) x kernel features x policy switch x "
-                "datapath-v2 switch x recorded capability x cilium_net link presence, run through the real mergeConfigList by the tagged test driver in private mount+network namespaces. "
+                "datapath-v2 switch x recorded capability x cilium_net link presence, run through the real mergeConfigList by the tagged test driver in private mount+network namespaces; every generated list without a chainer then goes through the second step of `terway-cli cni`, storeRuntimeConfig, under recover (driver outcome panic:store, monitor C20/chain/panic). "
                 "non-trivial = non-empty overlay that merges / chain with at least one output plugin; distinct = distinct op line.",
         "technique": "Lean 4 theorems over a structural model of evanphx merge patch (nested-inductive JSON) and a fold model of mergeConfigList with invariants; differential correspondence incl. an out-of-process package-main driver",
         "level_text": "Theorems for all documents / plugin lists / feature combinations over the models; see Props/C20.lean. Tied to types/daemon/config.go (via jsonpatch and the real MergeConfigAndUnmarshal) and to cmd/terway-cli mergeConfigList by differential runs.",
@@ -169,7 +169,7 @@ PROPS = {
                      "C18.c18_zone_subset", "C18.c18_match_sound", "C18.c18_fixed_needs_stable_name", "C18.c18_daemonset_no_affinity"],
         "rule": "pods from the product of host-network / ignore label / container count (a fifth of them with a first container that already declares both device resources, quantity 1-4) / owner kind (StatefulSet, ReplicaSet, DaemonSet) / pod-eni flag, with one of: a user pod-networks annotation (1-3 entries, names incl. empty, too long and duplicate, "
                 "0/1/2/11 security groups, missing vSwitches, Fixed/Elastic/unset), a pod-networks-request (1-3 references incl. unknown networks), none, malformed JSON, or conflicting annotations; 0-3 PodNetworking objects (ready or not, Fixed or not, "
-                "pod/namespace selectors that match / do not match / are absent, zone sets); namespace present or not; previous PodENI zone; IPAM type; resource injection; trunk; cluster configuration with/without vSwitches or absent. "
+                "pod/namespace selectors that match / do not match / are absent, zone sets); namespace present or not; previous PodENI zone; IPAM type; resource injection; trunk; cluster configuration with/without vSwitches, absent, with the legacy security_group field, with 10 and 11 effective security groups (more than ten make the configuration unreadable). "
                 "The real podWebhook runs against controller-runtime's fake client, its JSON patch is applied and decoded. non-trivial = patched response; distinct = distinct op line.",
         "technique": "Lean 4 theorems over a staged model of podWebhook (gate / source / validate / finish); differential correspondence through the real handler with a fake client; Go monitors on the patched pod",
         "level_text": "Theorems for all pods, definitions and configurations of the model: out-of-scope pods are admitted unchanged, conflicting annotations denied, a patched pod has unique 1-5 byte interface names, <= 10 security groups, an allocation type, "
@@ -270,11 +270,11 @@ PROPS["C01"] = {
     "required": ["C01.c01_invariant_all_interleavings", "C01.c01_one_owner_per_address", "C01.c01_direct_serves_own_or_free",
                  "C01.c01_worker_serves_own_or_free", "C01.c01_repeat_served_with_held", "C01.c01_reply_addresses_stay_bound",
                  "C01.c01_removed_address_not_offered", "C01.c01_deleting_address_not_offered"],
-    "rule": _PW_RULE,
+    "rule": _PW_RULE + " Exclusivity across a daemon restart (Local.load rebuilding the pool from the stored records): the daemon world of C05 with its restart / crash ops runs inside this check as well (dm.* lines, Model/Daemon.lean); its monitors double-allocation, restart/binding-lost and restart/two-records-one-address count for C01 (keys C01/daemon/...).",
     "technique": "Lean 4: transition system whose steps are the lock regions of eni.Local, invariant proved by induction over all interleavings and cloud answers; refinement check of every real lock region against the model under a randomised lock scheduler",
     "level_text": "Theorems for all interleavings of lock regions and all cloud answers: one entry (one owner) per address; a request is served only with the pod's own entry or a valid unowned one; a repeat request gets the held address; addresses of a reply on its way stay bound to its pod; an address seen removed by sync or marked for unassignment is never offered. Exclusivity over time additionally rests on the per-step monitors of the harness (reply ledger). Granularity is the lock region, not the instruction: partial.",
     "level_note": "Trusted: Lean kernel; the lock-region decomposition (read off the code, validated region by region); fake cloud. Not modelled: trunk/ERDMA/remote resources, Manager's choice among interfaces (any accepting interface is admitted), metrics.",
-    "assumptions": _PW_ASSUME, "trusted_base": _PW_TRUST, "design_ref": "DESIGN.md §4 C01",
+    "assumptions": _PW_ASSUME, "trusted_base": _PW_TRUST + ["Model/Daemon.lean and the daemon world (hooks, fake API server) for the restart slice"], "design_ref": "DESIGN.md §4 C01",
     "timeout_quick": 1200, "timeout_thorough": 7200,
 }
 PROPS["C06"] = {
@@ -284,17 +284,18 @@ PROPS["C06"] = {
                  "C06.c06_dispose_marks_only_idle", "C06.c06_delete_only_unused", "C06.c06_whole_eni_only_unused"],
     "rule": _PW_RULE + " Every cloud call's arguments are also checked at call time against the fake cloud's state and the harness's reply ledger (quota, batch, in-use, primary). Plus 400 / 8000 start-up configuration cases (limit vectors with IPv6 quota equal to / below / above the IPv4 quota x IP stack x mode) through the real checkInstance and getPoolConfig (ops cap.check, cap.pool of C19's model): IPv6 must be switched off whenever the pool's single per-interface limit would exceed the type's IPv6 quota.",
     "technique": "Lean 4: invariant 'tracked + asked-for <= per-ENI limit' and 'marked for unassignment => idle and secondary' proved over all interleavings; plan functions of the factory/dispose workers bounded by theorem; refinement check of every real lock region incl. the arguments of every cloud call",
-    "level_text": "Theorems: in every reachable state tracked plus asked-for addresses fit the per-ENI limit in each family; an assign request fits the free slots and the batch; an interface is created only on a slot without one (at most one per slot); only marked, idle, non-primary addresses are unassigned; shrinking marks only idle addresses; an interface is deleted only in deleting state with nothing held and nothing queued. Trunk and ERDMA interfaces (never disposed) are outside the model: partial.",
+    "level_text": "Theorem c06_pool_limit_is_type_quota: the single per-interface limit the pool is started with (MaxIPPerENI = the type's IPv4 quota) is the type's quota in every family left enabled - IPv6 stays on in multi-IP mode only when its quota equals the IPv4 quota. Theorems: in every reachable state tracked plus asked-for addresses fit the per-ENI limit in each family; an assign request fits the free slots and the batch; an interface is created only on a slot without one (at most one per slot); only marked, idle, non-primary addresses are unassigned; shrinking marks only idle addresses; an interface is deleted only in deleting state with nothing held and nothing queued. Trunk and ERDMA interfaces (never disposed) are outside the model: partial.",
     "level_note": "Trusted: Lean kernel; fake cloud; the balancer's n is recomputed by the driver from the recorded Usage regions.",
-    "assumptions": _PW_ASSUME, "trusted_base": _PW_TRUST, "design_ref": "DESIGN.md §4 C06",
+    "assumptions": _PW_ASSUME, "trusted_base": _PW_TRUST + ["Model/Capacity.lean (checkInstance / getPoolConfig), hooks daemon/zz_verif_export.go VerifCheckInstance, VerifGetPoolConfig"], "design_ref": "DESIGN.md §4 C06",
     "timeout_quick": 1200, "timeout_thorough": 7200,
 }
 PROPS["C07"] = {
     "lean": ["C07"],
     "required": ["C07.c07_assigned_addresses_tracked", "C07.c07_created_eni_tracked", "C07.c07_created_addresses_tracked",
                  "C07.c07_failed_unassign_keeps", "C07.c07_failed_delete_keeps", "C07.c07_unassign_forgets_exactly",
-                 "C07.c07_dispose_worker_retries", "C07.c07_undelivered_reply_unbinds", "C07.c07_release_unbinds", "C07.c07_balance_band"],
-    "rule": _PW_RULE + " At the quiescent end of every case (healthy cloud, after a sync) the pool's Status() is compared with the fake cloud: every cloud address/interface is tracked, every tracked valid address is in the cloud, nothing is left marked for deletion, and no address is owned by a pod that does not hold it.",
+                 "C07.c07_dispose_worker_retries", "C07.c07_undelivered_reply_unbinds", "C07.c07_release_unbinds", "C07.c07_balance_band",
+                 "C07.c07_factory_reports_what_took_effect"],
+    "rule": _PW_RULE + " At the quiescent end of every case (healthy cloud, after a sync) the pool's Status() is compared with the fake cloud: every cloud address/interface is tracked, every tracked valid address is in the cloud, nothing is left marked for deletion, and no address is owned by a pod that does not hold it. Below the pool: 40 / 400 address assignments through the REAL factory (pkg/factory/aliyun AssignNIPv4 / AssignNIPv6) over the real OpenAPI wrappers (SDK transport = a small stateful ECS of the harness) and the real metadata client (MetadataBase / TokenURL point at a loopback server): the call is refused, or takes effect and the metadata lists the addresses, or takes effect and the metadata never lists them (error after effect); what the factory returns is compared with Model/Factory.lean (op fa.assign), monitor: an address the cloud assigned is not in what the factory returned.",
     "technique": "Lean 4 theorems about every result-consuming region (what a cloud call returns is tracked; nothing is forgotten before the cloud confirmed) and the balancer arithmetic; refinement check of every real lock region plus quiescent-point comparison of pool and fake cloud under injected faults",
     "level_text": "Theorems: addresses returned by an assign call are tracked whether it reported success (usable) or an error (to hand back); an interface returned with an error is kept in deleting state; failed unassign/delete calls keep what they were about, confirmed ones forget exactly that; the dispose worker only rests when nothing is marked; an undelivered reply un-binds what the request bound; the balancer's surplus/deficit lead exactly to the band. 'Eventually returns to the band' is a liveness statement; it is neither proved nor monitored as such - only the balancer's arithmetic (theorem c07_balance_band) and the correspondence of the pl.bal / pl.usage / pl.bdisp regions cover it: partial.",
     "level_note": "Trusted: Lean kernel; fake cloud honouring the factory contract (an effect is reported back with the error); quiescence detection of the harness (no lock waiter, no gated call, no event for 450 ms).",
@@ -320,8 +321,8 @@ PROPS["C02"] = {
                  "C02.c02_rdma_only_for_rdma_pods", "C02.c02_merge_keeps_known", "C02.c02_merge_ips", "C02.c02_merge_no_new_binding"],
     "rule": _IP_RULE + " Every 8th C02 case lists 1-5 pods of the node (host-network / pod-ENI / finished pods, RDMA limits on an init container or a later container) through the real getPods over a fake client (op ip.pods; monitor: a pod none of whose containers asks for RDMA is classified as needing an RDMA interface). Every 8th C02 case is a cloud-drift case: the addresses a full synchronisation finds on one interface (80% of the recorded ones, a quarter of them reported as not available, plus 0-2 unknown ones) through the real mergeIPMap (op ip.merge), compared with Model/Ipam.lean mergeEntries; monitors: a bound valid address the cloud still reports is changed or dropped.",
     "technique": "Lean 4: the assignment step as a relation between the record before and after (quantified over Go's map orders), theorems about everything the relation admits; every outcome of the real assignIPFromLocalPool is checked to satisfy the relation",
-    "level_text": "Theorems about every outcome the relation admits: a binding never moves between pods; a new binding goes to a pod of the node that needs that family and has none, to exactly the address it reports (re-adoption) or a valid unbound address on an interface in use, RDMA interfaces to RDMA pods only, IPv6 on the interface of the pod's IPv4 address; at most one address per pod and family; addresses and their status untouched; the full synchronisation's merge leaves every address known to both sides exactly as recorded (bound addresses stay bound and valid), keeps exactly the addresses the cloud reports and binds nothing. That the real function only produces admitted outcomes is validated, not proved; beyond the merge of one interface, cloud drift (interfaces appearing / vanishing) and controller restarts enter only as arbitrary initial records and through the closed-loop runs: partial.",
-    "level_note": "Trusted: Lean kernel; Model/Ipam.lean relates to the code by the correspondence run only. The daemon's read-back (crdv2.go multiIP) is not modelled.",
+    "level_text": "Theorems about every outcome the relation admits: a pod is classified (needs IPv4 / IPv6 / an RDMA interface) from its own containers and the node's switches only, whatever else is listed; a binding never moves between pods; a new binding goes to a pod of the node that needs that family and has none, to exactly the address it reports (re-adoption) or a valid unbound address on an interface in use, RDMA interfaces to RDMA pods only, IPv6 on the interface of the pod's IPv4 address; at most one address per pod and family; addresses and their status untouched; the full synchronisation's merge leaves every address known to both sides exactly as recorded (bound addresses stay bound and valid), keeps exactly the addresses the cloud reports and binds nothing. That the real function only produces admitted outcomes is validated, not proved; beyond the merge of one interface, cloud drift (interfaces appearing / vanishing) and controller restarts enter only as arbitrary initial records and through the closed-loop runs: partial.",
+    "level_note": "Trusted: Lean kernel; Model/Ipam.lean relates to the code by the correspondence run only. The daemon's read-back (crdv2.go multiIP) is modelled only as to which interface a result describes (C12, crdOwner).",
     "assumptions": _IP_ASSUME, "trusted_base": _IP_TRUST, "design_ref": "DESIGN.md §4 C02",
 }
 PROPS["C03"] = {
